@@ -222,6 +222,38 @@ def translate(repo):
                  "self._checkMonotonic([(sfunc, 'linear')], total_distance=distance)"]:
         if frag not in fs:
             raise TranslationError(f"getSfuncFixedSpacing: expected statement missing: {frag}")
+    # ---- the normalisation each site uses, as an expression of (N_norm_prefactor, ny_total): translated, theorem C10_normalisation
+    def nnorm_ir(node, what):
+        ex = SExec(strip=("self.user_options.", "self."))
+        e = ex.expr(node)
+        op = pyir.find_opaque(e)
+        if op:
+            raise TranslationError(f"N_norm in {what}: {op}")
+        extra = pyir.free_vars(e) - {"N_norm_prefactor", "ny_total"}
+        if extra:
+            raise TranslationError(f"N_norm in {what} reads {sorted(extra)}")
+        return e
+    for fn, key in (("combineSfuncs", "Nnorm_combine"), ("getSfuncFixedPerpSpacing", "Nnorm_perp")):
+        node = get_function(path, "EquilibriumRegion." + fn)
+        asg = [x for x in ast.walk(node) if isinstance(x, ast.Assign) and len(x.targets) == 1 and isinstance(x.targets[0], ast.Name) and x.targets[0].id == "N_norm"]
+        if len(asg) != 1:
+            raise TranslationError(f"{fn}: expected exactly one assignment to N_norm, found {len(asg)}")
+        out[key] = nnorm_ir(asg[0].value, fn)
+        # ... and the constructor must be handed that variable
+        uses = [c for c in ast.walk(node) if isinstance(c, ast.Call) and src_of(c.func) in ("self.getMonotonicPoloidalDistanceFunc", "self.getSqrtPoloidalDistanceFunc")]
+        for c in uses:
+            if len(c.args) < 3 or src_of(c.args[2]) != "N_norm":
+                raise TranslationError(f"{fn}: a spacing-function constructor is not called with N_norm as its third argument")
+    node = get_function(path, "EquilibriumRegion.getSfuncFixedSpacing")
+    k = 0
+    for c in ast.walk(node):
+        if isinstance(c, ast.Call) and src_of(c.func) in ("self.getMonotonicPoloidalDistanceFunc", "self.getSqrtPoloidalDistanceFunc"):
+            if len(c.args) < 3:
+                raise TranslationError("getSfuncFixedSpacing: constructor call without a positional N_norm")
+            out[f"Nnorm_fixed_{src_of(c.func).split('get')[1][:4].lower()}"] = nnorm_ir(c.args[2], "getSfuncFixedSpacing")
+            k += 1
+    if k != 2:
+        raise TranslationError(f"getSfuncFixedSpacing: expected two constructor calls, found {k}")
     cm = ast.unparse(get_function(path, "EquilibriumRegion._checkMonotonic"))
     for frag in ["indices = numpy.arange(-self.extend_lower, 2 * self.ny_noguards + self.extend_upper + 1, dtype=float)", "scheck = sfunc_list[0][0](indices)", "if numpy.any(scheck[1:] < scheck[:-1]):", "raise ValueError("]:
         if frag not in cm:
@@ -264,7 +296,7 @@ def pr(e):
 
 
 SQRT_IN = ["length", "N", "N_norm", "a_lower", "b_lower", "a_upper", "b_upper", "i"]
-INPUTS = {"sqrt2": SQRT_IN, "sqrtU": ["length", "N", "N_norm", "a_upper", "b_upper", "i"], "sqrtL": ["length", "N", "N_norm", "a_lower", "b_lower", "i"],
+INPUTS = {"Nnorm": ["N_norm_prefactor", "ny_total"], "sqrt2": SQRT_IN, "sqrtU": ["length", "N", "N_norm", "a_upper", "b_upper", "i"], "sqrtL": ["length", "N", "N_norm", "a_lower", "b_lower", "i"],
           "sqrt0": ["length", "N", "i"], "mono_convex": ["length", "N", "N_norm", "d_lower", "d_upper", "i"],
           "mono_concave": ["length", "N", "N_norm", "d_lower", "d_upper", "l1", "l2", "l3", "r2", "r3", "i"], "linear": ["length", "N", "i"]}
 
